@@ -185,8 +185,12 @@ def run(ctx, chk, tier):
         chk.unknown("R14.5", "only %d random draws observed" % n)
     chk.floor("R14.1", 4, "2 classes x 2 metric kinds")
     # the CI formula itself (C13) is part of "bootstrap_ci equals the documented formula applied to those replicates"
-    from . import c13
+    from . import c13, c01
     c13.run(ctx, chk, tier)
+    # "the j-th sample produced by the configured sampler": the configuration reaches the index sampler (R11.7) and
+    # every sample is built in the ordered typestate its metrics rely on (R01.4)
+    c11.dispatch(ctx, chk)
+    c01.construction_sites(ctx, chk)
 
 
 from ..terms import V as V_  # noqa: E402
